@@ -288,6 +288,22 @@ func (fx *fnExec) evalSpec(e Expr, env *SpecEnv) SV {
 			if typ == nil {
 				so = fx.ghostSort(qv.Type)
 			}
+			if typ != nil {
+				if stt, isStruct := typ.Underlying().(*types.Struct); isStruct {
+					// a variable ranging over the values of a key struct type: bound as the datatype, read field-wise
+					if ks, ok := fx.keySort(typ); ok && strings.HasPrefix(ks, "K$") {
+						n := qv.Name + "$q"
+						binders = append(binders, fmt.Sprintf("(%s %s)", n, ks))
+						var fsv []SV
+						for fi := 0; fi < stt.NumFields(); fi++ {
+							fso, _ := fx.scalarSort(stt.Field(fi).Type())
+							fsv = append(fsv, Sc{Term{fmt.Sprintf("(%s$f%d %s)", ks, fi, n), fso}, stt.Field(fi).Type()})
+						}
+						ne.bound[qv.Name] = St{Typ: typ, F: fsv}
+						continue
+					}
+				}
+			}
 			switch qv.Type {
 			case "byte":
 				so = fx.isort()
@@ -500,6 +516,9 @@ func (fx *fnExec) specIndex(v, i SV, env *SpecEnv) SV {
 				}
 			}
 			_ = es
+			if stv, isSt := i.(St); isSt && strings.HasPrefix(is, "K$") {
+				return Sc{tSel(s.T, fx.keyTerm(stv, stv.Typ, is)), et}
+			}
 			return Sc{tSel(s.T, fx.sc(i, is)), et}
 		}
 		if s.Typ != nil {
